@@ -184,6 +184,12 @@ func checkC01(c *Check) {
 
 	// ---- R7 no lost update: a record changed after its last save
 	c.lostUpdateRule("R7", kfuncs)
+	// records decoded in a loop do not share amount pointers (a balance that appears in two records is counted twice
+	// or paid out without a debit); shared with C02-R8
+	c.decodeTargetRule("R9", []string{"x/escrow/keeper"})
+	// an export / import cycle carries every account and payment over (what is left out stays in the module account
+	// with no record to pay it out to); shared with C02 / C03
+	c.escrowExportComplete("R9")
 
 	// ---- R8 double entry inside settlement (shared with C02-R4): what a payee is credited is what the account is
 	// debited; otherwise recorded balances and the module balance drift apart without any bank call
@@ -529,4 +535,80 @@ func (c *Check) macPerms(modName string) {
 		}
 	})
 	c.Ob("R5", "BlockedAddrs built from MacPerms and allowedReceivingModAcc", ba.Pos(), usesPerms && usesAllowed, "BlockedAddrs no longer covers every module account")
+}
+
+// escrowExportComplete: ExportGenesis hands each of the keeper's two enumerations a callback that records the element
+// on every path and never stops the enumeration: every account and every payment in the store is in the export.
+func (c *Check) escrowExportComplete(rule string) {
+	l := c.L
+	exp := l.Func("x/escrow", "", "ExportGenesis")
+	c.Analysed(fnName(exp))
+	n := 0
+	for _, g0 := range fnAndClosuresDeep(exp) {
+		for _, call := range callsInOwn(g0) {
+			m := calleeMethod(call)
+			if m != "WithAccounts" && m != "WithPayments" {
+				continue
+			}
+			n++
+			args := call.Common().Args
+			cb := callbackFunc(args[len(args)-1])
+			if cb == nil {
+				c.Info(rule, "genesis export: callback of "+m+" not resolved, completeness not decided", call.Pos(), "")
+				continue
+			}
+			c.Analysed(fnName(cb))
+			field := "Accounts"
+			if m == "WithPayments" {
+				field = "Payments"
+			}
+			okStop, okRec := true, true
+			for _, b := range cb.Blocks {
+				r, isR := b.Instrs[len(b.Instrs)-1].(*ssa.Return)
+				if !isR || len(r.Results) != 1 {
+					continue
+				}
+				for _, lf := range retLeaves(r.Results[0], b, map[ssa.Value]bool{}) {
+					if !isConstBool(lf.val, false) {
+						okStop = false
+					}
+				}
+				// the element is recorded before every return: appended to the exported list (whatever holds it)
+				if !mustPassFrom(cb, nil, r, func(in ssa.Instruction) bool {
+					x, isC := in.(*ssa.Call)
+					if !isC || calleeFull(x) != "builtin.append" || len(x.Call.Args) != 2 {
+						return false
+					}
+					return strings.Contains(Sym(x.Call.Args[1]), "p:"+paramName(cb.Params[len(cb.Params)-1]))
+				}) {
+					okRec = false
+				}
+			}
+			c.Ob(rule, "genesis export: the "+field+" enumeration is never stopped by its callback", call.Pos(), okStop, "the callback can return true: the export ends at that element and every later record is missing from the exported state")
+			c.Ob(rule, "genesis export: every enumerated element of "+field+" is recorded", call.Pos(), okRec, "a path through the callback returns without appending the element: the exported state lacks records the store holds (their coins stay in the module account)")
+		}
+	}
+	if n < 2 {
+		c.Ob(rule, "genesis export enumerates accounts and payments", exp.Pos(), false, "ExportGenesis no longer walks both record kinds")
+	}
+}
+
+// callbackFunc: the function behind a callback argument: a closure, a function value, or a bound method value.
+func callbackFunc(v ssa.Value) *ssa.Function {
+	switch x := v.(type) {
+	case *ssa.MakeClosure:
+		f, _ := x.Fn.(*ssa.Function)
+		if f != nil && f.Synthetic != "" {
+			// bound method wrapper: the method it forwards to
+			for _, call := range callsInOwn(f) {
+				if g := call.Common().StaticCallee(); g != nil && g.Blocks != nil {
+					return g
+				}
+			}
+		}
+		return f
+	case *ssa.Function:
+		return x
+	}
+	return nil
 }
